@@ -29,13 +29,47 @@ fn seq_http(focus: Focus, scale: u64) -> Vec<Job> {
     seq_all(focus, scale).into_iter().filter(|j| j.name.contains("http")).collect()
 }
 
+fn twin(mode: crate::twin::TwinMode, quick: u64, thorough: u64) -> Job {
+    Job {
+        name: format!("twin-{:?}", mode).to_lowercase(),
+        kind: JobKind::Twin { mode },
+        quick,
+        thorough,
+    }
+}
+
+fn iso_all() -> Vec<Job> {
+    use Backend::*;
+    use Entry::*;
+    let mk = |name: &str, backend, entry, quick, thorough| Job {
+        name: name.to_string(),
+        kind: JobKind::Iso { backend, entry },
+        quick,
+        thorough,
+    };
+    vec![
+        mk("iso-mem-lib", Memory, Lib, 5000, 250_000),
+        mk("iso-mem-http", Memory, Http, 3000, 150_000),
+        mk("iso-sqlite-lib", Sqlite, Lib, 1000, 50_000),
+        mk("iso-sqlite-http", Sqlite, Http, 1000, 50_000),
+    ]
+}
+
 pub fn jobs_for(prop: &str) -> Vec<Job> {
+    use crate::twin::TwinMode;
     match prop {
         "C01" | "C02" | "C07" | "C08" | "C18" => seq_all(Focus::General, 1),
         "C10" | "C11" => seq_all(Focus::Snapshots, 1),
         "C12" => seq_all(Focus::Urgency, 1),
         "C06" => seq_all(Focus::Payloads, 1),
-        "C14" | "C20" => seq_http(Focus::General, 1),
+        "C14" => {
+            let mut v = seq_http(Focus::General, 1);
+            v.push(twin(TwinMode::HttpLib, 3000, 150_000));
+            v
+        }
+        "C20" => seq_http(Focus::General, 1),
+        "C13" => vec![twin(TwinMode::Backends, 2500, 120_000)],
+        "C09" => iso_all(),
         _ => vec![],
     }
 }
